@@ -142,21 +142,26 @@ theorem step_module (g : PGraph Str) (n : Name) (hn : n ∈ a.nodes) (hg : Inv a
     exact this
 
 /-- processing one import -/
-theorem step_import (g : PGraph Str) (e : Name × Name) (he : e ∈ a.imports) (hg : Inv a lim g) :
-    Inv a lim (addImport lim g (absImport (render e.1) (render e.2))) ∧
-    g.nodes ⊆ (addImport lim g (absImport (render e.1) (render e.2))).nodes ∧
-    g.edges ⊆ (addImport lim g (absImport (render e.1) (render e.2))).edges ∧
+theorem step_import (known : List Str) (hk : ∀ n ∈ a.nodes, render n ∈ known)
+    (g : PGraph Str) (e : Name × Name) (he : e ∈ a.imports) (hg : Inv a lim g) :
+    Inv a lim (addImport lim known g (absImport (render e.1) (render e.2))) ∧
+    g.nodes ⊆ (addImport lim known g (absImport (render e.1) (render e.2))).nodes ∧
+    g.edges ⊆ (addImport lim known g (absImport (render e.1) (render e.2))).edges ∧
     (trunc lim e.1 ≠ trunc lim e.2 → render (trunc lim e.1) ∈ g.nodes → render (trunc lim e.2) ∈ g.nodes →
       ⟨render (trunc lim e.1), render (trunc lim e.2), false⟩ ∈
-        (addImport lim g (absImport (render e.1) (render e.2))).edges) := by
+        (addImport lim known g (absImport (render e.1) (render e.2))).edges) := by
   obtain ⟨i1, i2, -, -⟩ := wf_import a hwf e he
+  have hskip : skipImportEdge lim known (absImport (render e.1) (render e.2)) = false := by
+    simp [skipImportEdge, absImport, hk _ i1, hk _ i2]
   have w1 := wf_nodes a hwf _ i1
   have w2 := wf_nodes a hwf _ i2
   have f1 := fl_render lim _ w1
   have f2 := fl_render lim _ w2
   have hex := P_excl a lim hwf
-  unfold addImport absImport
-  simp only []
+  unfold addImport
+  rw [hskip]
+  unfold absImport
+  simp only [Bool.false_eq_true, if_false]
   -- first call: the import edge
   have hleg0 : flattenNode lim (render e.1) ≠ flattenNode lim (render e.2) →
       P a lim (flattenNode lim (render e.1)) (flattenNode lim (render e.2)) false := by
@@ -232,12 +237,14 @@ theorem build_full : Full a lim (archGraphLim a lim) ∧
       ⟨render (trunc lim e.1), render (trunc lim e.2), false⟩ ∈ (archGraphLim a lim).edges) := by
   unfold archGraphLim buildGraph
   have h0 := modules_full a lim hwf
+  have hk : ∀ n ∈ a.nodes, render n ∈ knownModules (a.nodes.map render) := fun n hn =>
+    List.mem_append_left _ (List.mem_map.2 ⟨n, hn, rfl⟩)
   have hinv : ∀ (g : PGraph Str) (x : ImportRec),
       x ∈ a.imports.map (fun e => absImport (render e.1) (render e.2)) → Full a lim g →
-      Full a lim (addImport lim g x) := by
+      Full a lim (addImport lim (knownModules (a.nodes.map render)) g x) := by
     intro g x hx hg
     obtain ⟨e, he, rfl⟩ := List.mem_map.1 hx
-    obtain ⟨s1, s2, s3, -⟩ := step_import a lim hwf g e he hg.1
+    obtain ⟨s1, s2, s3, -⟩ := step_import a lim hwf _ hk g e he hg.1
     exact ⟨s1, fun n hn => s2 (hg.2.1 n hn), fun c hc hl => s3 (hg.2.2 c hc hl)⟩
   refine ⟨foldl_inv _ _ _ hinv _ h0, ?_⟩
   intro e he hne
@@ -246,10 +253,10 @@ theorem build_full : Full a lim (archGraphLim a lim) ∧
     (absImport (render e.1) (render e.2)) (List.mem_map.2 ⟨e, he, rfl⟩) hinv ?_ ?_ _ h0
   · intro g x hx hg hh
     obtain ⟨e', he', rfl⟩ := List.mem_map.1 hx
-    exact (step_import a lim hwf g e' he' hg.1).2.2.1 hh
+    exact (step_import a lim hwf _ hk g e' he' hg.1).2.2.1 hh
   · intro g hg
     obtain ⟨i1, i2, -, -⟩ := wf_import a hwf e he
-    exact (step_import a lim hwf g e he hg.1).2.2.2 hne (hg.2.1 _ i1) (hg.2.1 _ i2)
+    exact (step_import a lim hwf _ hk g e he hg.1).2.2.2 hne (hg.2.1 _ i1) (hg.2.1 _ i2)
 
 end
 
@@ -297,14 +304,16 @@ theorem addHierarchy_nodup (lim : Option Nat) (g : PGraph Str) (ps : List Str) (
   rw [edgeFold_nodes]
   exact nodeFold_nodup lim ps g h
 
-theorem addImport_nodup (lim : Option Nat) (g : PGraph Str) (i : ImportRec) (h : g.nodes.Nodup) :
-    (addImport lim g i).nodes.Nodup := by
+theorem addImport_nodup (lim : Option Nat) (known : List Str) (g : PGraph Str) (i : ImportRec)
+    (h : g.nodes.Nodup) : (addImport lim known g i).nodes.Nodup := by
   unfold addImport
   simp only []
   rw [edgeFold_nodes]
   apply addHierarchy_nodup
-  rw [createEdge_nodes]
-  exact h
+  split
+  · exact h
+  · rw [createEdge_nodes]
+    exact h
 
 end BuildMain
 
@@ -356,7 +365,7 @@ theorem archGraph_graphOf (a : Arch) (hwf : a.wf = true) : GraphOf a (archGraph 
 
 theorem archGraphLim_nodup (a : Arch) (lim : Option Nat) : (archGraphLim a lim).nodes.Nodup := by
   unfold archGraphLim buildGraph
-  apply foldl_inv (addImport lim) (fun g => g.nodes.Nodup) _ (fun g x _ h => addImport_nodup lim g x h)
+  apply foldl_inv (addImport lim _) (fun g => g.nodes.Nodup) _ (fun g x _ h => addImport_nodup lim _ g x h)
   unfold addAllModules
   apply foldl_inv _ (fun g => g.nodes.Nodup) _
     (fun g x _ h => addHierarchy_nodup lim _ _ _ (createNode_nodup lim g x h))
